@@ -84,6 +84,10 @@ def gen_hierarchy(r, i):
             # a variable used by a field only is not a parameter of the class: keep the fields within the parameters
             fields = [(fn, t) for fn, t in fields if all(v in seen_b for v in free_vars(t, []))]
             params = seen_b
+        # a field of an ancestor declared again, with another type over this class's parameters (the most derived declaration decides, the position stays)
+        inherited = [fn for c_ in classes for fn, _ in c_["fields"]]
+        if inherited and r.random() < 0.3:
+            fields = fields + [(r.choice(inherited), gen_term(r, params) if params else ("c", r.choice(CONCRETE[:4])))]
         classes.append({"name": name, "params": params, "base": (par["name"], args), "explicit": explicit, "fields": fields})
     return classes
 
@@ -112,7 +116,10 @@ def resolved_fields(classes, idx, env):
         pidx = next(k for k, x in enumerate(classes) if x["name"] == c["base"][0])
         penv = {p: subst(a, env) for p, a in zip(classes[pidx]["params"], c["base"][1])}
         res += resolved_fields(classes, pidx, penv)
-    res += [(fn, subst(t, env)) for fn, t in c["fields"]]
+    for fn, t in c["fields"]:
+        t2 = subst(t, env)
+        if any(fn == x for x, _ in res): res = [(x, t2 if x == fn else y) for x, y in res]        # declared again: same position, this type
+        else: res.append((fn, t2))
     return res
 
 
